@@ -2329,7 +2329,8 @@ static bool parse_next(TokenContext &ctx, Chunk &pc, const Chunk *prev_pc)
    auto ch = ctx.peek();
 
    if (  (  language_is_set(lang_flag_e::LANG_C)
-         || language_is_set(lang_flag_e::LANG_CPP))
+         || language_is_set(lang_flag_e::LANG_CPP)
+         || language_is_set(lang_flag_e::LANG_OC))      // Objective-C is a superset of C: u8"s"
       && (  ch == 'u'                     // 117
          || ch == 'U'                     // 85
          || ch == 'R'                     // 82
